@@ -79,8 +79,8 @@ var lgTable = []lgEntry{
 	{Rule: "L1", Func: "tensor.(*Dense).Hstack", Site: "$r.Concat(0,", Goal: "($r.Dims() == 1)", Props: []string{"C10"}, Why: "only a rank-1 receiver is stacked along axis 0 by Hstack"},
 	// ---- stacking / repetition (C10) -----------------------------------------------------------------
 	{Rule: "L1", Func: "tensor.(StdEng).StackDense", Site: "$r.denseSimpleStack(", Goal: "%allNoMat", Props: []string{"C10"}, Why: "the block-copy stack reads raw storage of every operand (the accumulator itself is rule LA)"},
-	{Rule: "L1", Func: "tensor.(StdEng).denseRepeat", Site: "fastCopyDenseRepeat(", Decides: []string{"$t.RequiresIterator()"}, Props: []string{"C10"}, Why: "block copies read the operand's raw storage"},
-	{Rule: "L1", Func: "tensor.(StdEng).denseRepeat", Site: "copyDenseSliced(", Decides: []string{"$t.RequiresIterator()"}, Props: []string{"C10"}, Why: "block copies read the operand's raw storage"},
+	{Rule: "L1", Func: "tensor.(StdEng).denseRepeat", Site: "fastCopyDenseRepeat(", Goal: "!(%ok && %td.IsMaterializable())", OrStep: ".Materialize()", Props: []string{"C10"}, Why: "block copies read the operand's raw storage: views and lazily transposed operands are materialised first"},
+	{Rule: "L1", Func: "tensor.(StdEng).denseRepeat", Site: "copyDenseSliced(", Goal: "!(%ok && %td.IsMaterializable())", OrStep: ".Materialize()", Props: []string{"C10"}, Why: "block copies read the operand's raw storage: views and lazily transposed operands are materialised first"},
 	{Rule: "L1", Func: "tensor.(StdEng).RepeatReuse", Site: "$r.denseRepeat(", Goal: "(%ok && $reuse.Shape().Eq(%newShape))", Props: []string{"C10", "C13"}, Why: "a reuse destination is accepted only when its shape is the computed result shape: the repeat fills it by the result's geometry, and the returned tensor must have the shape the shape-only calculator predicts"},
 	// ---- mask inspection (C15) -----------------------------------------------------------------------
 	{Rule: "L1", Func: "tensor.doMaskAll", Site: "range %ts.mask", Goal: "(%ts.IsMasked() && (%ts.Size() == len(%ts.mask)))", Props: []string{"C15"}, Why: "the whole-mask fold is the fold over the tensor's elements only when the mask covers exactly those elements (a view's mask window is longer)"},
